@@ -133,8 +133,8 @@ func parseContractFile(repo, path string) (*PkgContracts, error) {
 			continue
 		}
 		body := strings.TrimPrefix(s, "//@")
-		if strings.HasPrefix(body, "|") {
-			pc.Raw = append(pc.Raw, strings.TrimPrefix(strings.TrimPrefix(body, "|"), " "))
+		if tb := strings.TrimLeft(body, " "); strings.HasPrefix(tb, "|") {
+			pc.Raw = append(pc.Raw, strings.TrimPrefix(strings.TrimPrefix(tb, "|"), " "))
 			last = nil
 			continue
 		}
@@ -675,8 +675,22 @@ func (pc *PkgContracts) generate(locals map[string]localInfo) (string, error) {
 	}
 	body.WriteString(`
 func old[T any](x T) T { return x }
-func forall(lo, hi int, f func(i int) bool) bool
-func exists(lo, hi int, f func(i int) bool) bool
+func forall(lo, hi int, f func(i int) bool) bool {
+	for i := lo; i < hi; i++ {
+		if !f(i) {
+			return false
+		}
+	}
+	return true
+}
+func exists(lo, hi int, f func(i int) bool) bool {
+	for i := lo; i < hi; i++ {
+		if f(i) {
+			return true
+		}
+	}
+	return false
+}
 `)
 	for _, l := range pc.Raw {
 		body.WriteString(l + "\n")
